@@ -32,6 +32,7 @@ type FuncContract struct {
 	Ensures  []*Clause
 	Sinks    []*Clause
 	LoopInv  map[int][]*Clause
+	LoopGhost map[int][]*GhostVar
 	Modifies []string // nil = unspecified (havoc all)
 	NoMod    bool
 	Pure     bool
@@ -49,6 +50,16 @@ type FuncContract struct {
 	SpecNames []string // spec-level aliases for the results of a pure function (one per result)
 	File     string
 	Line     int
+}
+
+// GhostVar: a ghost loop accumulator: "loop K ghost NAME SORT init E step E" (step is evaluated on every back edge,
+// with the loop variables at their values at the loop head and the heap as it is at the back edge).
+type GhostVar struct {
+	Name string
+	Sort string
+	Init *SExpr
+	Step *SExpr
+	Src  string
 }
 
 type SpecFunc struct {
@@ -298,6 +309,23 @@ func (db *SpecDB) loadContractFile(path, pkgPath string) error {
 				return fmt.Errorf("%s:%d: loop ordinal: %v", path, ln+1, err)
 			}
 			r := strings.TrimSpace(strings.TrimPrefix(rest, f[0]))
+			if f[1] == "ghost" {
+				// loop K ghost NAME SORT init E step E
+				gm := regexp.MustCompile(`^ghost\s+(\w+)\s+(\w+)\s+init\s+(.*?)\s+step\s+(.*)$`).FindStringSubmatch(r)
+				if gm == nil {
+					return fmt.Errorf("%s:%d: expected 'loop K ghost NAME SORT init E step E'", path, ln+1)
+				}
+				ie, err1 := parseSpec(gm[3])
+				se, err2 := parseSpec(gm[4])
+				if err1 != nil || err2 != nil {
+					return fmt.Errorf("%s:%d: ghost: %v %v", path, ln+1, err1, err2)
+				}
+				if cur.LoopGhost == nil {
+					cur.LoopGhost = map[int][]*GhostVar{}
+				}
+				cur.LoopGhost[k] = append(cur.LoopGhost[k], &GhostVar{Name: gm[1], Sort: gm[2], Init: ie, Step: se, Src: r})
+				continue
+			}
 			m := clauseHead.FindStringSubmatch(r)
 			if m == nil || m[1] != "invariant" {
 				return fmt.Errorf("%s:%d: expected 'loop K invariant e'", path, ln+1)
